@@ -289,7 +289,7 @@ func (e *Enc) run(known compSet) {
 	}
 	for _, fv := range e.fn.FreeVars {
 		c := e.fresh("fv_"+fv.Name(), SInt)
-		e.assert(And(Lt(I(0), c), Lt(c, st0.hwm)))
+		e.assert(And(Not(Eq(c, I(0))), Lt(I(0), e.root(c)), Lt(e.root(c), st0.hwm)))
 		e.vals[fv] = tv(c)
 	}
 	e.pre = st0
@@ -1164,7 +1164,7 @@ func (e *Enc) ret(st *State, ins *ssa.Return) {
 	for _, r := range ins.Results {
 		results = append(results, e.val(st, r))
 	}
-	e.useLemmas(st)
+	e.useLemmas(st, results...)
 	sc := e.specCtx(st, e.pre)
 	sc.bindResults(results, e.fn.Signature.Results())
 	for i, cl := range e.c.Ensures {
